@@ -1290,22 +1290,28 @@ theorem stmtOk_cases {e : Expr} (h : stmtOk e = true) :
   · exact .inr ⟨_, _, rfl, .inr (.inr (.inr h))⟩
   · cases h
 
-/-- the forms of a statement of the fragment: the operands of a conditional / ewma are value expressions,
-the second of which does not assign the result variable of the first -/
+/-- the forms of a statement of the fragment: a comment; a bare operator expression that is a value expression; a
+bind — the operands of a conditional / ewma are value expressions, the second of which does not assign the result
+variable of the first -/
 theorem stmtOk2_cases {e : Expr} (h : stmtOk2 e = true) :
-    e = .none ∨ ∃ x rhs, e = .sexp .bind (.atom (.name x)) rhs ∧
+    e = .none ∨ (∃ o l r code, e = .sexp o l r ∧ pureOpcode o = some code ∧ valueE (.sexp o l r) = true) ∨
+    ∃ x rhs, e = .sexp .bind (.atom (.name x)) rhs ∧
       ((∃ c v, rhs = .sexp .if c v ∧ valueE c = true ∧ valueE v = true ∧ noHazard c v = true) ∨
        (∃ c v, rhs = .sexp .notIf c v ∧ valueE c = true ∧ valueE v = true ∧ noHazard c v = true) ∨
        (∃ c v, rhs = .sexp .ewma c v ∧ valueE c = true ∧ valueE v = true ∧ noHazard c v = true) ∨
        valueE rhs = true) := by
-  unfold stmtOk2 at h
-  split at h
+  rcases stmtOk2_forms h with rfl | hb | ⟨x, rhs, rfl⟩
   · exact .inl rfl
-  · simp only [Bool.and_eq_true] at h; exact .inr ⟨_, _, rfl, .inl ⟨_, _, rfl, h.1.1, h.1.2, h.2⟩⟩
-  · simp only [Bool.and_eq_true] at h; exact .inr ⟨_, _, rfl, .inr (.inl ⟨_, _, rfl, h.1.1, h.1.2, h.2⟩)⟩
-  · simp only [Bool.and_eq_true] at h; exact .inr ⟨_, _, rfl, .inr (.inr (.inl ⟨_, _, rfl, h.1.1, h.1.2, h.2⟩))⟩
-  · exact .inr ⟨_, _, rfl, .inr (.inr (.inr h))⟩
-  · cases h
+  · exact .inr (.inl hb)
+  refine .inr (.inr ⟨x, rhs, rfl, ?_⟩)
+  rcases notCond_or rhs with ⟨h1, h2, h3⟩ | ⟨op, a, b, code, rfl, hc⟩
+  · rw [stmtOk2.eq_5 x rhs h1 h2 h3] at h
+    exact .inr (.inr (.inr h))
+  · rcases condCode_cases hc with ⟨rfl, rfl⟩ | ⟨rfl, rfl⟩ | ⟨rfl, rfl⟩ <;>
+      simp only [stmtOk2, Bool.and_eq_true] at h
+    · exact .inl ⟨_, _, rfl, h.1.1, h.1.2, h.2⟩
+    · exact .inr (.inl ⟨_, _, rfl, h.1.1, h.1.2, h.2⟩)
+    · exact .inr (.inr (.inl ⟨_, _, rfl, h.1.1, h.1.2, h.2⟩))
 
 /-- outcome of one (non-comment) statement -/
 def StmtRes (ρ : Rho) (env : Env) (s : Sem.SrcState) (c : Conn) (e : Expr) (is : List VInstr) : Prop :=
@@ -1347,8 +1353,19 @@ theorem lowerStmt_res {ρ : Rho} {decls : List Sem.VarDecl} (hρ : RhoOk ρ decl
     (hok : stmtOk2 e = true) (hne : e ≠ .none) (hlit : litsOkE e = true) (hw : writesOkE e = true)
     (hlow : lowerStmt ρ e = some is) (ht : TmpsOk is) (env : Env) (s : Sem.SrcState) (c : Conn)
     (sim : Sim ρ s c) (wf : RegsWf c) : StmtRes ρ env s c e is := by
-  rcases stmtOk2_cases hok with rfl | ⟨x, rhs, rfl, hforms⟩
+  rcases stmtOk2_cases hok with rfl | ⟨o, l, r, code, rfl, ho, hv⟩ | ⟨x, rhs, rfl, hforms⟩
   · exact absurd rfl hne
+  · -- a bare operator expression: its code, the value is dropped
+    rw [lowerStmt_bare ho] at hlow
+    obtain ⟨le, hle, rfl⟩ := Option.map_eq_some_iff.mp hlow
+    have hreg : le.reg.cls = 7 → le.reg.idx < 8 := by
+      obtain ⟨cl, cr, -, -, rfl⟩ := lowerE_sexp_inv ho hle
+      exact (ht _ (List.mem_append_right _ (List.mem_singleton.mpr rfl))).1
+    rcases lowerE_res hρ _ hv hlit 0 le env s c hle sim wf ht hreg with
+      ⟨s1, v, c', ev, x1, sim', wf', -, hev⟩ | ⟨sf, rc, c', ev, hrc, x1, sim', wf'⟩ | ev
+    · exact .inl ⟨s1, v, c', ev, x1, sim', wf', fun _ => hev⟩
+    · exact .inr (.inl ⟨sf, rc, c', ev, hrc, x1, sim', wf'⟩)
+    · exact .inr (.inr ev)
   have hp : Sem.primIndex x = none := writesOkE_bind hw
   have hlr := litsOkE_bind hlit
   rcases hforms with ⟨a, b, rfl, hpa, hpb, hz⟩ | ⟨a, b, rfl, hpa, hpb, hz⟩ | ⟨a, b, rfl, hpa, hpb, hz⟩ | hpure
